@@ -208,14 +208,16 @@ theorem C02_breaks_entityChangeUnchecked :
     (syncDay { Defects.asImplemented with entityChangeUnchecked := false } world 10 b).1.nodes = world.nodes := by
   decide
 
-/-- the admin entry of room 10 (row 11, no room, signed by key 0) is overwritten by a `B` row of
-    key 2: no right on a room-less row is ever checked. -/
+/-- **fixed in /repo 37a7f03, kept as a regression witness about `Defects.beforeFixes`.** The admin
+    entry of room 10 (row 11, no room, signed by key 0) was overwritten by a `B` row of key 2: no
+    right on a room-less row was ever checked. The code as it is now refuses the row. -/
 theorem C02_breaks_roomlessReplaceUnchecked :
     let n := mkNode 11 10 2 300 2
     let b := { noBatch with nodes := [n] }
-    (syncDay Defects.asImplemented world 10 b).1.nodes.find? (·.id = 11) = some n.row ∧
-    (syncDay { Defects.asImplemented with roomlessReplaceUnchecked := false,
-                                          entityChangeUnchecked := false } world 10 b).1.nodes = world.nodes := by
+    (syncDay Defects.beforeFixes world 10 b).1.nodes.find? (·.id = 11) = some n.row ∧
+    (syncDay Defects.asImplemented world 10 b).1.nodes = world.nodes ∧
+    (syncDay { Defects.beforeFixes with roomlessReplaceUnchecked := false,
+                                        entityChangeUnchecked := false } world 10 b).1.nodes = world.nodes := by
   decide
 
 /-- while room 10 is synchronised, a deletion record of room 40 (signed by key 3, entitled there)
@@ -250,22 +252,55 @@ theorem C02_breaks_edgeDelSourceUnchecked :
     (syncDay { Defects.asImplemented with edgeDelSourceUnchecked := false } world2 40 b).1 = world2 := by
   decide
 
-/-- a row without JSON is stored although its entity has a mandatory field. -/
+/-- **fixed in /repo e73c9e7, kept as a regression witness about `Defects.beforeFixes`.** A row without
+    JSON was stored although its entity has a mandatory field. The code as it is now refuses it. -/
 theorem C02_breaks_jsonAbsentUnchecked :
     let n := { mkNode 71 10 1 300 2 with conforms := false, jsonAbsent := true }
     let b := { noBatch with nodes := [n] }
-    n.row ∈ (syncDay Defects.asImplemented world 10 b).1.nodes ∧
-    (syncDay { Defects.asImplemented with jsonAbsentUnchecked := false } world 10 b).1 = world := by
+    n.row ∈ (syncDay Defects.beforeFixes world 10 b).1.nodes ∧
+    (syncDay Defects.asImplemented world 10 b).1 = world ∧
+    (syncDay { Defects.beforeFixes with jsonAbsentUnchecked := false } world 10 b).1 = world := by
+  decide
+
+/-- a room whose only group gives its users the wildcard own-rows right `*`; key 2 is a plain user -/
+def wildRoom : RoomT :=
+  { id := 10, mdate := 100, admins := [{ key := 0, date := 100, enabled := true }],
+    auths := [{ id := 12, mdate := 100, users := [{ key := 2, date := 100, enabled := true }],
+                rights := [{ validFrom := 100, entity := 0, mutSelf := true, mutAll := false }], userAdmins := [] }] }
+
+/-- its definition rows: the room row 10 and the admin entry 11 (system rows, no room) -/
+def wildWorld : Inst :=
+  { rooms := [wildRoom],
+    nodes := [{ id := 10, room := none, ent := 100, cdate := 100, mdate := 100, key := 0, sg := 0, val := 0 },
+              { id := 11, room := none, ent := 102, cdate := 100, mdate := 100, key := 0, sg := 0, val := 0 }],
+    edges := [{ src := 10, srcEnt := 100, label := 32, dst := 11, cdate := 100, key := 0 }],
+    nodeLog := [], edgeLog := [] }
+
+/-- **rows of a room definition accepted as data.** The wildcard right covers the system entities:
+    key 2 gets a `sys.UserAuth` row of its own making (row 300, entity 102) and a reference
+    room-row -[32 = admin]-> 300 into the tables. The acceptance of the next room definition reads
+    them back as a stored admin entry (`C07_breaks_storedDefinitionTrusted`). Refusing rows,
+    references and deletion records of the four definition entities closes it. Stated about
+    `Defects.beforeFixes` so that it stays true when the switch is turned off in `asImplemented`. -/
+theorem C02_breaks_authEntityUnchecked :
+    let n := mkNode 300 10 102 300 2
+    let e : EdgeRow := { src := 10, srcEnt := 100, label := 32, dst := 300, cdate := 300, key := 2 }
+    let b := { noBatch with nodes := [n], edges := [{ row := e, sigOk := true }] }
+    n.row ∈ (syncDay Defects.beforeFixes wildWorld 10 b).1.nodes ∧
+    e ∈ (syncDay Defects.beforeFixes wildWorld 10 b).1.edges ∧
+    (syncDay { Defects.beforeFixes with authEntityUnchecked := false } wildWorld 10 b).1 = wildWorld := by
   decide
 
 /-! ## 4. the code as written, under the guard that excludes those shapes -/
 
 /-- **C02_partial.** For the code as written (`Defects.asImplemented`), the full conclusions of
     `C02_rows`, `C02_references`, `C02_deletion_logs` hold for every batch that passes `dayGuard`:
-    no row without JSON, no overwritten row of another entity or without room, references whose
+    no row, reference or deletion record of a room-definition entity, no overwritten row of another entity,
+    references whose
     source row is a local row of the synchronised room and entity and that replace no other author's
     reference, deletion records of the synchronised room naming the entity of the row / the room of
-    the source row. What is missing relative to the full statement is exactly the eight witnesses above. -/
+    the source row. What is missing relative to the full statement is exactly the seven witnesses above that
+    are stated about `Defects.asImplemented` (two more were fixed: 37a7f03, e73c9e7). -/
 theorem C02_partial (s : Inst) (room : Nat) (b : Batch) (hn : NodupIds s.nodes) (g : dayGuard s room b = true) :
     (∀ x ∈ (syncDay Defects.asImplemented s room b).1.nodes, x ∉ s.nodes →
       ∃ n ∈ b.nodes, n.row = x ∧ NodeOk (st2 Defects.asImplemented s room b) room n) ∧
@@ -288,11 +323,60 @@ theorem C02_partial (s : Inst) (room : Nat) (b : Batch) (hn : NodupIds s.nodes) 
   refine ⟨?_, ?_, ?_, ?_, ?_, ?_⟩
   · intro x hx hnew
     obtain ⟨n, hn', hrow, hok⟩ := day_new_rows hx hnew
-    exact ⟨n, hn', hrow, hok.guarded (g3 n hn')⟩
+    exact ⟨n, hn', hrow, hok.guarded rfl rfl (g3 n hn')⟩
   · intro x hx hgone
     rcases day_removed_rows hn hx hgone with ⟨r, hr, h1, h2, hok⟩ | ⟨n, hn', h1, _, hok⟩
     · exact Or.inl ⟨r, hr, h1, h2, hok.guarded (g2 r hr)⟩
-    · exact Or.inr ⟨n, hn', h1, hok.guarded (g3 n hn')⟩
+    · exact Or.inr ⟨n, hn', h1, hok.guarded rfl rfl (g3 n hn')⟩
+  · intro x hx hnew
+    obtain ⟨e, he, hrow, prev, hok, hp⟩ := day_new_refs hx hnew
+    refine ⟨e, he, hrow, prev, hok.guarded (g4 e he) ?_⟩
+    intro p hprev
+    obtain ⟨hk, hm⟩ := hp p hprev
+    refine ⟨hk, ?_⟩
+    rcases hm with hm | ⟨e', he', rfl⟩
+    · exact List.mem_append_left _ hm
+    · exact List.mem_append_right _ (List.mem_map_of_mem he')
+  · intro x hx hgone
+    rcases day_removed_refs hx hgone with ⟨r, hr, hm, hok⟩ | ⟨e, he, hk, _⟩
+    · exact Or.inl ⟨r, hr, hm, hok.guarded (g1 r hr)⟩
+    · exact Or.inr ⟨e, he, hk⟩
+  · intro t ht hnew
+    obtain ⟨r, hr, he, hok⟩ := day_new_node_log ht hnew
+    exact ⟨r, hr, he, hok.guarded (g2 r hr)⟩
+  · intro t ht hnew
+    obtain ⟨r, hr, he, hok⟩ := day_new_edge_log ht hnew
+    exact ⟨r, hr, he, hok.guarded (g1 r hr)⟩
+
+/-- the same for /repo before the fixes 37a7f03 and e73c9e7, under the stronger guard that was needed
+    then (moreover: no row without JSON, no overwritten row without room) -/
+theorem C02_partial_beforeFixes (s : Inst) (room : Nat) (b : Batch) (hn : NodupIds s.nodes) (g : dayGuardBeforeFixes s room b = true) :
+    (∀ x ∈ (syncDay Defects.beforeFixes s room b).1.nodes, x ∉ s.nodes →
+      ∃ n ∈ b.nodes, n.row = x ∧ NodeOk (st2 Defects.beforeFixes s room b) room n) ∧
+    (∀ x ∈ s.nodes, x ∉ (syncDay Defects.beforeFixes s room b).1.nodes →
+      (∃ r ∈ b.nodeDels, x.room = some r.entry.room ∧ x.id = r.entry.id ∧
+        NodeDelOk (st1 Defects.beforeFixes s room b) room r) ∨
+      (∃ n ∈ b.nodes, n.row.id = x.id ∧ NodeOk (st2 Defects.beforeFixes s room b) room n)) ∧
+    (∀ x ∈ (syncDay Defects.beforeFixes s room b).1.edges, x ∉ s.edges →
+      ∃ e ∈ b.edges, e.row = x ∧ ∃ prev, EdgeOk (st3 Defects.beforeFixes s room b) room prev e) ∧
+    (∀ x ∈ s.edges, x ∉ (syncDay Defects.beforeFixes s room b).1.edges →
+      (∃ r ∈ b.edgeDels, edgeMatches r.entry x = true ∧ EdgeDelOk s room r) ∨
+      (∃ e ∈ b.edges, edgeKeyEq e.row x = true)) ∧
+    (∀ t ∈ (syncDay Defects.beforeFixes s room b).1.nodeLog, t ∉ s.nodeLog →
+      ∃ r ∈ b.nodeDels, r.entry = t ∧ NodeDelOk (st1 Defects.beforeFixes s room b) room r) ∧
+    (∀ t ∈ (syncDay Defects.beforeFixes s room b).1.edgeLog, t ∉ s.edgeLog →
+      ∃ r ∈ b.edgeDels, r.entry = t ∧ EdgeDelOk s room r) := by
+  unfold dayGuardBeforeFixes at g
+  simp only [Bool.and_eq_true, List.all_eq_true] at g
+  obtain ⟨⟨⟨g1, g2⟩, g3⟩, g4⟩ := g
+  refine ⟨?_, ?_, ?_, ?_, ?_, ?_⟩
+  · intro x hx hnew
+    obtain ⟨n, hn', hrow, hok⟩ := day_new_rows hx hnew
+    exact ⟨n, hn', hrow, hok.guardedBeforeFixes (g3 n hn')⟩
+  · intro x hx hgone
+    rcases day_removed_rows hn hx hgone with ⟨r, hr, h1, h2, hok⟩ | ⟨n, hn', h1, _, hok⟩
+    · exact Or.inl ⟨r, hr, h1, h2, hok.guarded (g2 r hr)⟩
+    · exact Or.inr ⟨n, hn', h1, hok.guardedBeforeFixes (g3 n hn')⟩
   · intro x hx hnew
     obtain ⟨e, he, hrow, prev, hok, hp⟩ := day_new_refs hx hnew
     refine ⟨e, he, hrow, prev, hok.guarded (g4 e he) ?_⟩
